@@ -6,6 +6,7 @@ mod chain;
 mod epoch;
 mod gen;
 mod sim;
+mod scen;
 mod out;
 mod rng;
 mod val;
@@ -44,6 +45,7 @@ fn main() {
     let fam = match family.as_str() {
         "epoch" => epoch::generate(seed, count),
         "chain-pool" | "chain-farm" | "chain-mixed" => chain::generate(&family, seed, count),
+        "farm-scn" | "manyfarms-scn" | "pool-scn" | "fault-scn" | "auth-scn" => scen::generate(&family, seed, count),
         x => { eprintln!("unknown family {x}"); std::process::exit(2); }
     };
     fam.write(&outdir, shards).expect("write cases");
